@@ -298,7 +298,21 @@ pub fn run_hostile_request(sim: &Sim, _idx: u64) {
     let msg = compressible(sim);
     // frame: flag 1 with a payload compressed with the named encoding (or gzip when none is named)
     let flag1 = sim.chance(1, 2);
-    let frame = if flag1 { indep::frame(1, &indep::compress(named.unwrap_or(Enc::Gzip), &msg)) } else { indep::frame(0, &msg) };
+    // (with no encoding named, the flagged payload is also an empty one — `01 00 00 00 00`, what a
+    // peer that always sets the flag sends for an empty message — or the plain serialization)
+    let no_enc_named = enc_hdr.is_none() || enc_hdr.as_deref() == Some(b"identity");
+    let frame = if flag1 {
+        match if no_enc_named { sim.draw(3) } else { 2 } {
+            0 => {
+                sim.probe("flagged-empty-payload-without-encoding");
+                indep::frame(1, &[])
+            }
+            1 => indep::frame(1, &msg),
+            _ => indep::frame(1, &indep::compress(named.unwrap_or(Enc::Gzip), &msg)),
+        }
+    } else {
+        indep::frame(0, &msg)
+    };
     let mut headers: Vec<(String, Vec<u8>)> = vec![("content-type".into(), b"application/grpc".to_vec()), ("te".into(), b"trailers".to_vec()), ("sim-call".into(), b"1".to_vec())];
     if let Some(a) = &accept_hdr {
         headers.push(("grpc-accept-encoding".into(), a.clone()));
@@ -411,7 +425,21 @@ pub fn run_hostile_response(sim: &Sim, _idx: u64) {
     let named: Option<Enc> = enc_hdr.as_ref().and_then(|v| std::str::from_utf8(v).ok()).and_then(Enc::from_name);
     let msg = compressible(sim);
     let flag1 = sim.chance(1, 2);
-    let frame = if flag1 { indep::frame(1, &indep::compress(named.unwrap_or(Enc::Gzip), &msg)) } else { indep::frame(0, &msg) };
+    // (with no encoding named, the flagged payload is also an empty one — `01 00 00 00 00`, what a
+    // peer that always sets the flag sends for an empty message — or the plain serialization)
+    let no_enc_named = enc_hdr.is_none() || enc_hdr.as_deref() == Some(b"identity");
+    let frame = if flag1 {
+        match if no_enc_named { sim.draw(3) } else { 2 } {
+            0 => {
+                sim.probe("flagged-empty-payload-without-encoding");
+                indep::frame(1, &[])
+            }
+            1 => indep::frame(1, &msg),
+            _ => indep::frame(1, &indep::compress(named.unwrap_or(Enc::Gzip), &msg)),
+        }
+    } else {
+        indep::frame(0, &msg)
+    };
     let mut script = PeerScript::ok_grpc();
     if let Some(e) = &enc_hdr {
         script.headers.push(("grpc-encoding".into(), e.clone()));
